@@ -521,6 +521,45 @@ def apps_of(decl, exprs):
     return list(out.values())
 
 
+def flatten_and(e):
+    if z3.is_and(e):
+        out = []
+        for c in e.children():
+            out += flatten_and(c)
+        return out
+    return [e]
+
+
+def split_goal(goal):
+    """conjuncts of a goal, each universally quantified conjunct replaced by its body at fresh (arbitrary) constants:
+    proving P(sk) for an unconstrained sk proves forall m. P(m).  Returns [(suffix, goal)]"""
+    out = []
+    for n_, g in enumerate(flatten_and(goal)):
+        if z3.is_true(g):
+            continue
+        if z3.is_quantifier(g) and g.is_forall():
+            sks = [z3.Const(f"sk_{g.var_name(i)}".replace("!", "_"), g.var_sort(i)) for i in range(g.num_vars())]
+            g = z3.substitute_vars(g.body(), *reversed(sks))
+        out.append((f"/c{n_}", g))
+    if len(out) == 1:
+        out = [("", out[0][1])]
+    return out
+
+
+def forall_instances(asserts, max_terms=8):
+    """instantiate every single-variable integer forall among the assertions (top-level conjuncts) at the integer constants
+    that occur free in the assertions (sound: instances of true universal facts)"""
+    terms = [t for t in consts_of(asserts, z3.IntSort()) if "!b" not in str(t) and "!q" not in str(t)][:max_terms]
+    out = []
+    for a in asserts:
+        for c in flatten_and(a):
+            if z3.is_quantifier(c) and c.is_forall() and c.num_vars() == 1 and c.var_sort(0) == z3.IntSort():
+                for t in terms:
+                    out.append(z3.substitute_vars(c.body(), t))
+                    out.append(z3.substitute_vars(c.body(), t + 1))
+    return out
+
+
 def consts_of(exprs, sort=None):
     seen, out, stack = set(), {}, list(exprs)
     while stack:
@@ -629,7 +668,7 @@ def family(name, props):
     return deco
 
 
-CONTRACT_MODULES = ["bisection", "leaves", "train", "spline", "planar", "combinators", "shapes", "distributions", "masks", "losses", "wrappers", "wrappers13", "params11", "integrate04", "purity", "structured", "datafit", "triangular"]
+CONTRACT_MODULES = ["bisection", "leaves", "train", "spline", "planar", "combinators", "shapes", "distributions", "masks", "losses", "wrappers", "wrappers13", "params11", "integrate04", "purity", "structured", "datafit", "triangular", "simple", "mixture"]
 
 
 def load_contracts():
